@@ -46,7 +46,8 @@ RULE = ("for a configuration (grid of 1-4 variations, rep_max below / at / "
         "configurations are enumerated completely, large ones strided.  "
         "Signature = (crash-point kind, rep_max class, format, position "
         "class); non-trivial = the crash happened after at least one "
-        "repetition or during a save.")
+        "repetition or during a save."
+        "The runner under test implements the per-combination start hook and logs every repetition executed without it. ")
 ASSUMPTIONS = ["a crash is os._exit at the failpoint (no buffered data is "
                "flushed); torn writes keep the first b bytes of the file",
                "the restarted run uses the same parameters and a fresh process"]
@@ -86,7 +87,15 @@ class CrashRunner(SimulationRunner):
         stop = getattr(self.conf, "stop_at", None)
         return True if stop is None else current_rep < stop
 
+    def _on_simulate_current_params_start(self, current_params):
+        # per-combination preparation (what a real simulator does here: build
+        # the modulator / channel for this combination)
+        self._prepared = max(current_params.unpack_index, 0)
+
     def _run_simulation(self, current_params):
+        if getattr(self, "_prepared", None) != max(current_params.unpack_index, 0):
+            self.log("unprepared", current_params.unpack_index,
+                     getattr(self, "_prepared", None))
         self.ncalls += 1
         g = self.faults.get("raise")
         if g and g[0] == self.ncalls and not self.faults.get("raised"):
@@ -336,6 +345,11 @@ def calls_in_log(wd, tag):
     return ids
 
 
+def unprepared_in_log(wd, tag):
+    return [ln for ln in read_text(os.path.join(wd, "log_%s.txt" % tag)).splitlines()
+            if ln.startswith("unprepared")]
+
+
 def gen_conf(rng, big):
     c = Conf()
     nvar_a = int(rng.integers(1, 4))
@@ -486,6 +500,9 @@ def decide(ctx, conf, wd, tag, kind, point, restarts=1):
         ctx.ev("restart-completes", False, cls="no-summary", detail=d())
         return False
     new = calls_in_log(wd, "second")
+    unp = unprepared_in_log(wd, "first") + unprepared_in_log(wd, "second")
+    ctx.ev("restart-completes", not unp, cls="repetitions-run-without-the-start-hook",
+           detail=d(log_lines=unp[:5]))
     ok_all = True
     for v in range(nvar):
         ids = out["ids"][v] if v < len(out["ids"]) else None
@@ -641,6 +658,9 @@ def case_sameobject(ctx, rng, idx):
                 seen = True
             elif p and p[0] == "call":
                 (after if seen else before).setdefault(max(int(p[1]), 0), []).append(int(p[2]))
+        unp = unprepared_in_log(wd, "first")
+        ctx.ev("restart-completes", not unp, cls="same-object:repetitions-run-without-the-start-hook",
+               detail=d(log_lines=unp[:5]))
         ctx.ev("exactly-once", len(out["ids"]) == nvar and len(out["runned_reps"]) == nvar,
                cls="same-object:one-result-per-combination",
                detail=d(n_results=len(out["ids"]), runned_reps=out["runned_reps"]))
